@@ -9,7 +9,7 @@ Open Scope Z_scope.
 
 Definition dec_status (s : sexp) : option call_status :=
   if sym_eqb s "ok" then Some StOk else if sym_eqb s "panic" then Some StPanic
-  else if sym_eqb s "hang" then Some StHang else None.
+  else if sym_eqb s "hang" then Some StHang else if sym_eqb s "crash" then Some StCrash else None.
 
 Definition run_case (s : sexp) : sexp :=
   match s with
@@ -21,6 +21,7 @@ Definition run_case (s : sexp) : sexp :=
         | TotOk => v_ok (0 <? cnt)
         | TotPanic => L [sym "specfail"; S (str "c06-panic-" ++ kind)]
         | TotHang => L [sym "specfail"; S (str "c06-hang-" ++ kind)]
+        | TotCrash => L [sym "specfail"; S (str "c06-crash-" ++ kind)]
         | TotNil => L [sym "specfail"; S (str "c06-nil-" ++ kind)]
         | TotConc => L [sym "specfail"; S (str "c06-concurrent-" ++ kind)]
         end
